@@ -114,7 +114,7 @@ PROPS = {
     ),
     'C05': dict(
         title='Lookup caches are transparent: answers never depend on earlier lookups',
-        contracts=['C04_lookup', 'C02_spec', 'C09_registry', 'C05_cache'], falsifier='C05', modes=['py', 'c'], level='other',
+        contracts=['C04_lookup', 'C02_spec', 'C09_registry', 'C05_cache', 'C06_verifying'], falsifier='C05', modes=['py', 'c'], level='other',
         cfunctions=['_subcache', '_getcache', '_lookup', '_lookup1', '_adapter_hook', '_lookupAll', '_subscriptions'],
         creturns={'_subcache': 'borrowed', '_getcache': 'borrowed'},
         only={'C04_lookup': ['adapter.py:AdapterLookupBase._uncached_lookup'],
@@ -143,7 +143,7 @@ PROPS = {
     ),
     'C06': dict(
         title='Registries consult exactly their current base chain, in resolution order',
-        contracts=['C04_lookup', 'C09_registry'], falsifier='C06', modes=['py', 'c'], level='other',
+        contracts=['C04_lookup', 'C09_registry', 'C06_verifying'], falsifier='C06', modes=['py', 'c'], level='other',
         only={'C04_lookup': ['adapter.py:AdapterLookupBase._uncached_lookup'],
               'C09_registry': ['adapter.py:BaseAdapterRegistry.changed', 'adapter.py:AdapterRegistry.changed',
                                'adapter.py:BaseAdapterRegistry._setBases', 'adapter.py:AdapterRegistry._setBases',
@@ -152,7 +152,11 @@ PROPS = {
                    'stop at the first hit. Assigning __bases__ is verified from the real bodies: BaseAdapterRegistry._setBases records '
                    'the bases, stores exactly the C3 order ro.ro computes from the base graph as it then is, leaves every other '
                    'registry\'s bases and order alone and notifies last; AdapterRegistry._setBases additionally leaves the registry '
-                   'linked as sub-registry of every new base and of no dropped one, touching no other link. That the stored orders '
+                   'linked as sub-registry of every new base and of no dropped one, touching no other link; the generation-checking '
+                   'flavour (VerifyingBase, Python reference): changed() empties the caches and re-takes the snapshot from the '
+                   'registry\'s current order with the generations of exactly those registries, _verify() does nothing when every '
+                   'snapshot generation is current and otherwise runs changed(), and _getcache/lookupAll/subscriptions verify the '
+                   'snapshot before delegating. That the stored orders '
                    'of the DESCENDANTS follow is not a consequence of these contracts -- it is the recorded defect (stale order of '
                    'descendants of a re-based registry), announced as KNOWN-FINDING; the end-to-end statement is checked bounded on '
                    'random registry DAGs/histories of both flavours, continuing past the recorded deviation.',
